@@ -345,6 +345,11 @@ def cases(rng, tier):
             for nl in ("\n", "\n\n", "\r\n", "\r"):
                 for tail in ("", "/x", "?q", "#f"):
                     out.append({"url": pre + a + nl + tail})
+    for dot in ("\u3002", "\uff0e", "\uff61"):
+        for h in ("safe" + dot + "evil.com", "b\u00fccher" + dot, "a" + dot + "b" + dot + "c", dot + "x.example", "trusted.example" + dot + "attacker.example"):
+            for pre in ("http://", "https://u@", ""):
+                out.append({"url": pre + h + "/p"})
+                out.append({"url": pre + h + ":8080"})
     for comp in ("a%41%zz", "%41%", "%", "%4", "%zz%41", "%25%41%", "%41%42", "a%2f%2F%", "%e9%", "\u00e9%41%", "%41%\u00e9"):
         for u in ("http://h/" + comp, "http://h/p?" + comp, "http://h/p#" + comp, "http://h/" + comp + "?" + comp + "#" + comp, "https://u@h:8/x/" + comp + "/y"):
             out.append({"url": u})
